@@ -25,6 +25,14 @@ Definition knows (r : ring) (id : Z) : Prop := get_host r id <> None.
 Definition accepted (c : cfg) (report : list hostinfo) : list hostinfo := filter (accept c) report.
 Definition reported_ids (c : cfg) (report : list hostinfo) : list Z := map h_id (accepted c report).
 
+(* a host id reported more than once counts once: its first report *)
+Fixpoint first_by_id (seen : list Z) (hs : list hostinfo) : list hostinfo :=
+  match hs with
+  | [] => []
+  | h :: tl => if zmem (h_id h) seen then first_by_id seen tl else h :: first_by_id (h_id h :: seen) tl
+  end.
+Definition effective (c : cfg) (report : list hostinfo) : list hostinfo := first_by_id [] (accepted c report).
+
 (* membership of a host selection policy that does what the calls tell it: AddHost adds, RemoveHost removes *)
 Fixpoint policy_members (log : list paction) (acc : list Z) : list Z :=
   match log with
